@@ -345,6 +345,62 @@ def population_programs():
     return out
 
 
+def keepfile_history(res):
+    """One keep-file PATH whose content changes between runs of one process (edited between two `luamin` runs of a
+    watch script; the same relative name in two projects): every run must honour the file as it is NOW."""
+    import shutil
+    from pico8 import tool
+    from pico8.game import file as p8file
+    from lib import carts
+    lua = c01.lua_mod()
+    d = tempfile.mkdtemp(prefix='c02kf_')
+    cwd0 = os.getcwd()
+    try:
+        src = b'score=1 lives=2 xpos=3 b=4 hp=score+lives+xpos+b\n'
+        contents = [[b'score', b'b'], [b'lives'], [b'xpos', b'a', b'c'], [], [b'score', b'b']]
+        kf = os.path.join(d, 'keep.txt')
+        for step, names in enumerate(contents):
+            open(kf, 'wb').write(b'\n'.join(names) + b'\n')
+            for how in ('library', 'cli', 'cli-relative'):
+                res.evaluations += 1
+                case = {'keepfile_history': step, 'how': how}
+                try:
+                    if how == 'library':
+                        obj = lua.Lua.from_lines([src], version=8)
+                        out = b''.join(obj.to_lines(writer_cls=lua.LuaMinifyTokenWriter, writer_args={'keep_names_from_file': kf}))
+                    else:
+                        cart = os.path.join(d, 'c%d.p8' % step)
+                        p8file.to_file(carts.make_game({}, version=33, code_lines=[src]), cart)
+                        if how == 'cli-relative':
+                            os.chdir(d)
+                            rc_ = tool.main(['luamin', '--keep-names-from-file', 'keep.txt', 'c%d.p8' % step])
+                            os.chdir(cwd0)
+                        else:
+                            rc_ = tool.main(['luamin', '--keep-names-from-file', kf, cart])
+                        out = b''.join(p8file.from_file(os.path.join(d, 'c%d_fmt.p8' % step)).lua.to_lines())
+                except Exception as e:
+                    os.chdir(cwd0)
+                    res.violation('C02|keepfile-history|raise|%s' % type(e).__name__, 'run %d (%s) raised %r' % (step, how, e), case)
+                    continue
+                pairs = align(reflex.significant(reflex.lex(src)), reflex.significant(reflex.lex(out)))
+                fwd = dict(pairs)
+                bad_kept = [n_ for n_ in names if n_ in fwd and fwd[n_] != n_]
+                gen = [v for k, v in fwd.items() if v != k and v in names]
+                if bad_kept:
+                    res.violation('C02|keepfile-history|not-kept', 'run %d (%s): the keep file now lists %r but %r became %r (it was not listed in an '
+                                  'earlier run of this process)' % (step, how, names, bad_kept[0], fwd[bad_kept[0]]), case)
+                elif gen:
+                    res.violation('C02|keepfile-history|generated-kept', 'run %d (%s): generated name %r is listed in the keep file as it is now (%r)' % (
+                        step, how, gen[0], names), case)
+                elif len(set(fwd.values())) != len(fwd):
+                    res.violation('C02|keepfile-history|collision', 'run %d (%s): %r' % (step, how, fwd), case)
+                else:
+                    res.nontriv(('keepfile-history', step, how))
+    finally:
+        os.chdir(cwd0)
+        shutil.rmtree(d, ignore_errors=True)
+
+
 def cli_batch(res):
     """The same map properties on what `p8tool luamin` / `p8tool build --lua-minify` write, per configuration."""
     import shutil
@@ -458,6 +514,7 @@ def run_shard(item):
         check_alloc(item[1], res, keep=successors_of_reserved(26 ** 3))
         check_casing(res)
     elif kind == 'cli':
+        keepfile_history(res)
         cli_batch(res)
         res.sample({'cli': 'p8tool luamin / build --lua-minify x {default, --keep-all-names, --keep-names-from-file}'})
     elif kind == 'population':
@@ -499,7 +556,9 @@ def finalize(total):
 
 def replay(case):
     res = ShardResult()
-    if 'cli' in case:
+    if 'keepfile_history' in case:
+        keepfile_history(res)
+    elif 'cli' in case:
         cli_batch(res)
     elif 'hist' in case:
         check_history(case['keep'], case['keep_all'], tuple(case['hist']), res)
